@@ -96,6 +96,20 @@ int main(int argc, char **argv) {
                             for (long w = 0; w < 4096; w += 64) { Task t; t.cfg = c; t.kind = 1; t.n = 32768 + d; t.p = p; t.seam = s; t.word_lo = w; t.word_hi = w + 64; tasks.push_back(t); }
                     }
             }
+            if ((fam & 1) && wide) {
+                // long duplicate runs that start around a chunk start and end around a chunk end (whole chunks of duplicates)
+                for (long p : (thorough ? std::vector<long>{2, 3, 5, 20} : std::vector<long>{2, 20}))
+                    for (long j = 0; j < p; ++j) {
+                        if (p == 20 && !thorough && j > 2 && j < 17) continue;
+                        for (long len : {1L, 2L}) { if (j + len > p) continue; Task t; t.cfg = c; t.kind = 4; t.n = 32768; t.p = p; t.seam = j; t.rep = len; tasks.push_back(t); }
+                    }
+            }
+            if ((fam & 4) && wide) {
+                // skewed variants (a jump of 3x / 30x the span): 64 words each
+                for (long jump = 1; jump <= 3; ++jump) for (long w = 0; w < 256; w += 32) { Task t; t.cfg = c; t.kind = 3; t.word_lo = w; t.word_hi = w + 32; t.rep = 300; t.n = 4; t.seam = jump; tasks.push_back(t); }
+                // huge variant: more than 2^15 segments on the bottom level, so that the upper levels are built by the chunked builder
+                if (e.eps <= 2) for (long p : {2L, 16L}) for (long w : (thorough ? std::vector<long>{27, 114, 201, 228} : std::vector<long>{27, 228})) { Task t; t.cfg = c; t.kind = 3; t.word_lo = w; t.word_hi = w + 1; t.rep = 11000; t.n = 4; t.p = p; tasks.push_back(t); }
+            }
             if ((fam & 4) && wide) {
                 // density family: all 4-digit (quick) / 5-digit (thorough) words of gap multipliers, 300 clusters per digit
                 long width = thorough ? 5 : 4, nwords = 1; for (long i = 0; i < width; ++i) nwords *= 4;
@@ -110,7 +124,7 @@ int main(int argc, char **argv) {
             }
         }
         fam_bounds = thorough ? "; seam family n=32768+{0,1,7}, chunks {2,3,4,5,7,16,19,20}, all 4096 window words at every seam (and at the first/last seam alone); blocks family: 1 block x rep {1,50,400}, 2 blocks x rep {1,20}; density family: all 1024 five-digit words x 300 clusters"
-                              : "; seam family n=32768, chunks {2,20}, all 4096 window words at every seam; blocks family: 1 block x rep {1,50}, 2 blocks x rep 1; density family: all 256 four-digit words of gap multipliers x 300 clusters (several segments per upper level)";
+                              : "; seam family n=32768, chunks {2,20}, all 4096 window words at every seam; blocks family: 1 block x rep {1,50}, 2 blocks x rep 1; density family: all 256 four-digit words of gap multipliers x 300 clusters (several segments per upper level), skewed variants with a 3x/30x jump, and 44000-cluster variants whose upper levels are built by the chunked builder; long-run family: a duplicate run from around a chunk start to around a chunk end, every start/end offset";
     }
 
     run.run_tasks(tasks.size(), [&](uint64_t ti) {
@@ -126,8 +140,16 @@ int main(int argc, char **argv) {
             }
         } else if (t.kind == 3) {
             for (long w = t.word_lo; w < t.word_hi && !run.deadline_passed(); ++w) {
-                ks::FamilySpec s; s.kind = "density"; s.chunks = 1; s.rep = t.rep; s.width = t.n; s.word = w;
+                if (t.seam > 0 && w % 4 != 0) continue;
+                ks::FamilySpec s; s.kind = "density"; s.chunks = t.p; s.rep = t.rep; s.width = t.n; s.word = w; s.seam = t.seam;
                 if (w == t.word_lo + 3 && w % 64 == 3) run.sample(std::string("cfg=") + e.name + " family=" + s.str());
+                e.family(run, cn, prop, s);
+            }
+        } else if (t.kind == 4) {
+            for (long so : {-2L, -1L, 0L, 1L}) for (long eo : {-3L, -2L, -1L, 0L, 1L}) {
+                if (run.deadline_passed()) break;
+                ks::FamilySpec s; s.kind = "longrun"; s.n = t.n; s.chunks = t.p; s.seam = t.seam; s.rep = t.rep; s.width = so; s.word = eo;
+                if (so == 0 && eo == -1 && t.seam == 1) run.sample(std::string("cfg=") + e.name + " family=" + s.str());
                 e.family(run, cn, prop, s);
             }
         } else {
